@@ -1,0 +1,186 @@
+//go:build verif
+
+package extractor
+
+// Contracts for govc (see /verif/DESIGN.md §8 C19). Comment-only file: it adds no code.
+
+// ---------------------------------------------------------------------------------------
+// S3 bucket listings (s3.go)
+//
+// s3FileLink(base, key)        text of the direct link to object `key`
+// s3PageLink(req, param, val)  text of the request URL with query parameter param set to val
+//@ pure s3FileLink(b *url.URL, key string) string = url.urlText(b.Scheme, b.Opaque, b.User, b.Host, b.Path + ("/" + key), b.RawPath, b.OmitHost, b.ForceQuery, b.RawQuery, b.Fragment, b.RawFragment)
+//@ pure s3PageLink(r *url.URL, param string, val string) string = url.urlText(r.Scheme, r.Opaque, r.User, r.Host, r.Path, r.RawPath, r.OmitHost, r.ForceQuery, url.qset(url.qparse(r.RawQuery), param, val), r.Fragment, r.RawFragment)
+
+// urlKept(u): no field of *u has changed since function entry (loop frame: the loops write the
+// fields of freshly allocated copies only)
+//@ pred urlKept(u *url.URL) = u.Scheme == old(u.Scheme) && u.Opaque == old(u.Opaque) && u.User == old(u.User) && u.Host == old(u.Host) && u.Path == old(u.Path) && u.RawPath == old(u.RawPath) && u.OmitHost == old(u.OmitHost) && u.ForceQuery == old(u.ForceQuery) && u.RawQuery == old(u.RawQuery) && u.Fragment == old(u.Fragment) && u.RawFragment == old(u.RawFragment)
+
+// Element values (page.Contents[i].Key, page.CommonPrefixes[i].Prefix[k]) are read in the
+// current state everywhere below except where old() is written: govc gives by-value struct
+// elements of a slice abstract sub-references and cannot tell them apart from the loop
+// variable's local copy, so the invariants are phrased such that they survive a write to the
+// copy (it only ever receives the value of the element being processed). That the listing
+// itself is never written is a separate obligation (frame:*, from `modifies`).
+//@ pred fileLinked(links []string, b *url.URL, key string) = exists(j, 0, len(links), links[j] == s3FileLink(b, key))
+//@ pred prefixLinked(links []string, r *url.URL, p string) = exists(j, 0, len(links), links[j] == s3PageLink(r, "prefix", p))
+// cpOld(page): the Prefix arrays of the listing are not among the arrays allocated by this call
+//@ pred cpOld(pg S3ListBucketResult) = forall(i, 0, len(pg.CommonPrefixes), len(pg.CommonPrefixes[i].Prefix) > 0 ==> !freshslice(pg.CommonPrefixes[i].Prefix))
+
+//@ func s3Legacy
+//@   property C19
+//@   checks idx
+//@   requires reqURL != nil && parsedBase != nil
+//@   let page = result
+//@   modifies mapof(url.qtable())
+//@   loop range invariant [frame] freshslice(outlinks) && urlKept(reqURL) && urlKept(parsedBase) && -1 <= rangeindex && rangeindex <= len(page.Contents)
+//@   loop range invariant [next] (len(page.Contents) > 0 ==> len(outlinks) >= 1 && outlinks[0] == s3PageLink(reqURL, "marker", old(page.Contents[len(page.Contents)-1].Key))) && (len(page.Contents) == 0 ==> len(outlinks) == 0)
+//@   loop range invariant [objects] forall(i, 0, rangeindex+1, page.Contents[i].Size > 0 ==> fileLinked(outlinks, parsedBase, page.Contents[i].Key))
+//@   ensures [objects] forall(i, 0, len(page.Contents), page.Contents[i].Size > 0 ==> fileLinked(result0, parsedBase, page.Contents[i].Key)) // C19: until every object of non-zero size has been queued
+//@   ensures [next] len(page.Contents) > 0 ==> len(result0) >= 1 && result0[0] == s3PageLink(reqURL, "marker", old(page.Contents[len(page.Contents)-1].Key)) // C19: marker-paginated listing is followed page by page
+//@   ensures [stop] len(page.Contents) == 0 ==> len(result0) == 0 // C19: and the walk terminates
+
+// s3V2. [arrays-exist] is an assumption about the entry state (the Prefix arrays reachable from
+// the by-value parameter exist at entry, i.e. are not among the arrays this call allocates);
+// govc assumes this for values it loads itself but not under a quantifier.
+// [objects] used to fail: objects were dropped whenever CommonPrefixes was non-empty (a
+// delimited list-type=2 page carries both); its one-prefix/one-object instance gave the
+// counterexample that replay template c19_s3V2 confirmed on the real code. Repaired by a
+// "fix:" commit (see /verif/KNOWN_FINDINGS.txt); the instance is kept as [objects-1x1].
+//@ func s3V2
+//@   replay c19_s3V2:objects-1x1
+//@   property C19
+//@   checks idx
+//@   mode paths
+//@   let page = result
+//@   requires reqURL != nil && parsedBase != nil
+//@   requires [arrays-exist] cpOld(page)
+//@   modifies mapof(url.qtable())
+//@   loop range let oi = rangeindex
+//@   loop range invariant [frame] freshslice(outlinks) && urlKept(reqURL) && urlKept(parsedBase) && cpOld(page) && -1 <= rangeindex && rangeindex <= len(page.CommonPrefixes) && (len(page.CommonPrefixes) == 0 ==> len(outlinks) == 0)
+//@   loop range invariant [prefixes] forall(i, 0, rangeindex+1, forall(k, 0, len(page.CommonPrefixes[i].Prefix), prefixLinked(outlinks, reqURL, page.CommonPrefixes[i].Prefix[k])))
+//@   loop range#2 invariant [frame] freshslice(outlinks) && urlKept(reqURL) && urlKept(parsedBase) && cpOld(page) && -1 <= rangeindex && rangeindex <= len(prefix.Prefix) && 0 <= oi+1 && oi+1 < len(page.CommonPrefixes) && (len(prefix.Prefix) > 0 ==> !freshslice(prefix.Prefix))
+//@   loop range#2 invariant [prefixes] forall(i, 0, oi+2, forall(k, 0, len(page.CommonPrefixes[i].Prefix), prefixLinked(outlinks, reqURL, page.CommonPrefixes[i].Prefix[k]) || (k > rangeindex && k < len(prefix.Prefix) && page.CommonPrefixes[i].Prefix[k] == prefix.Prefix[k])))
+//@   loop range#3 invariant [frame] freshslice(outlinks) && urlKept(reqURL) && urlKept(parsedBase) && -1 <= rangeindex && rangeindex <= len(page.Contents) && (len(page.Contents) == 0 && len(page.CommonPrefixes) == 0 ==> len(outlinks) == 0)
+//@   loop range#3 invariant [prefixes] forall(i, 0, len(page.CommonPrefixes), forall(k, 0, len(page.CommonPrefixes[i].Prefix), prefixLinked(outlinks, reqURL, page.CommonPrefixes[i].Prefix[k])))
+//@   loop range#3 invariant [objects] forall(i, 0, rangeindex+1, page.Contents[i].Size > 0 ==> fileLinked(outlinks, parsedBase, page.Contents[i].Key))
+//@   ensures [prefixes] forall(i, 0, len(page.CommonPrefixes), forall(k, 0, len(page.CommonPrefixes[i].Prefix), prefixLinked(result0, reqURL, page.CommonPrefixes[i].Prefix[k]))) // C19: (list-type=2) with common prefixes - is followed
+//@   ensures [objects] forall(i, 0, len(page.Contents), page.Contents[i].Size > 0 ==> fileLinked(result0, parsedBase, page.Contents[i].Key)) // C19: until every object of non-zero size has been queued
+//@   ensures [objects-1x1] len(page.CommonPrefixes) == 1 && len(page.Contents) == 1 && page.Contents[0].Size > 0 ==> fileLinked(result0, parsedBase, page.Contents[0].Key) // C19: until every object of non-zero size has been queued
+//@   ensures [next] page.IsTruncated && page.NextContinuationToken != "" ==> len(result0) >= 1 && result0[len(result0)-1] == s3PageLink(reqURL, "continuation-token", page.NextContinuationToken) // C19: continuation-token-paginated listing is followed page by page
+//@   ensures [stop] !page.IsTruncated && len(page.CommonPrefixes) == 0 && len(page.Contents) == 0 ==> len(result0) == 0 // C19: and the walk terminates
+
+// ---------------------------------------------------------------------------------------
+// utils.go / json.go
+
+// cutEnd(s, e): e is where the query/fragment starts (first '#' or '?'), or len(s)
+//@ pred cutEnd(s string, e int) = 0 <= e && e <= len(s) && (e == len(s) || s[e] == '#' || s[e] == '?') && forall(j, 0, e, s[j] != '#' && s[j] != '?')
+// hasExtAt(s, e): the last path segment of s[:e] contains a '.' and does not end with one
+// Proved: true answer ==> hasExtAt ([ext]); no '.' at all ==> false ([no-dot]). The converse of
+// [ext] (hasExtAt ==> true) holds for the code but is not discharged (all solvers time out: it
+// needs index arithmetic through three nested substrings), so it is not claimed here.
+//@ pred hasExtAt(s string, e int) = e > 0 && s[e-1] != '.' && exists(d, 0, e, s[d] == '.' && forall(j, d, e, s[j] != '/'))
+
+//@ func hasFileExtension
+//@   property C19
+//@   checks idx slice
+//@   let s0 = s
+//@   modifies nothing
+//@   ensures [ext] forall(e, 0, len(s0)+1, cutEnd(s0, e) ==> (result ==> hasExtAt(s0, e))) // C19: URLs whose last path segment has a file extension
+//@   ensures [no-dot] forall(j, 0, len(s0), s0[j] != '.') ==> !result
+
+//@ func isLikelyJSON
+//@   property C19
+//@   checks idx
+//@   modifies nothing
+//@   ensures [short] len(str) < 5 ==> !result
+//@   ensures [def] len(str) >= 5 ==> result == (((str[0] == '{' && str[len(str)-1] == '}') || (str[0] == '[' && str[len(str)-1] == ']')) && strings.Contains(str, "\"")) // C19: including JSON embedded in a string
+
+// extOK(s): what a true answer of hasFileExtension guarantees about s
+//@ pred extOK(s string) = forall(e, 0, len(s)+1, cutEnd(s, e) ==> hasExtAt(s, e))
+//@ pred inList(l []string, s string) = exists(j, 0, len(l), l[j] == s)
+
+// findURLs (recursive; its own contract is assumed at the recursive calls): discovery only
+// ever appends, links found earlier keep their position.
+//@ func findURLs
+//@   property C19
+//@   checks idx nil
+//@   requires links != nil
+//@   let l0 = *links
+//@   modifies *links, elem::string
+//@   loop range invariant [grows] -1 <= rangeindex && len(*links) >= len(l0) && forall(j, 0, len(l0), (*links)[j] == old((*links)[j]))
+//@   loop rangemap invariant [grows] len(*links) >= len(l0) && forall(j, 0, len(l0), (*links)[j] == old((*links)[j]))
+//@   ensures [grows] len(*links) >= len(l0) && forall(j, 0, len(l0), (*links)[j] == old((*links)[j])) // C19: every string value at any nesting depth ... is discovered (links found so far are kept)
+
+// GetURLsFromJSON: the asset/outlink split of the discovered links.
+//@ func GetURLsFromJSON
+//@   property C19
+//@   checks idx
+//@   modifies elem::string
+//@   loop range invariant [frame] -1 <= rangeindex && rangeindex < len(links) && freshslice(assets) && freshslice(outlinks) && (arrof(assets) != 0 ==> !samearray(assets, links) && !samearray(assets, outlinks)) && (arrof(outlinks) != 0 ==> !samearray(outlinks, links))
+//@   loop range invariant [count] len(assets) + len(outlinks) == rangeindex + 1
+//@   loop range invariant [cover] forall(i, 0, rangeindex+1, inList(assets, links[i]) || inList(outlinks, links[i]))
+//@   loop range invariant [only] forall(j, 0, len(assets), inList(links, assets[j])) && forall(j, 0, len(outlinks), inList(links, outlinks[j]))
+//@   loop range invariant [assets-ext] forall(j, 0, len(assets), extOK(assets[j]))
+//@   ensures [error] result2 != nil ==> len(result0) == 0 && len(result1) == 0
+//@   ensures [split-count] result2 == nil ==> len(result0) + len(result1) == len(links) // C19: every link goes to exactly one of the two lists
+//@   ensures [split-cover] result2 == nil ==> forall(i, 0, len(links), inList(result0, links[i]) || inList(result1, links[i])) // C19: fetched as assets and the others are queued as outlinks
+//@   ensures [split-only] result2 == nil ==> forall(j, 0, len(result0), inList(links, result0[j])) && forall(j, 0, len(result1), inList(links, result1[j]))
+//@   ensures [assets-ext] result2 == nil ==> forall(j, 0, len(result0), extOK(result0[j])) // C19: URLs whose last path segment has a file extension are fetched as assets
+
+// JSON: every raw asset / outlink becomes a new URL object, in two new lists.
+//@ func JSON
+//@   property C19
+//@   requires URL != nil
+//@   modifies models.URL::*!Hops!Redirects, elem::string
+//@   loop range invariant [assets] -1 <= rangeindex && rangeindex < len(rawAssets) && freshslice(assets) && len(assets) == rangeindex + 1 && forall(k, 0, rangeindex+1, allocated(assets[k]) && fresh(assets[k]) && assets[k].Raw == rawAssets[k])
+//@   loop range#2 invariant [outlinks] -1 <= rangeindex && rangeindex < len(rawOutlinks) && freshslice(assets) && freshslice(outlinks) && (arrof(outlinks) != 0 ==> !samearray(assets, outlinks)) && len(outlinks) == rangeindex + 1 && forall(k, 0, rangeindex+1, allocated(outlinks[k]) && fresh(outlinks[k]) && outlinks[k].Raw == rawOutlinks[k])
+//@   loop range#2 invariant [assets-kept] forall(k, 0, len(assets), allocated(assets[k]) && fresh(assets[k]))
+//@   ensures [error] err != nil ==> len(assets) == 0 && len(outlinks) == 0
+//@   ensures [convert] err == nil ==> len(assets) == len(rawAssets) && len(outlinks) == len(rawOutlinks) && forall(k, 0, len(outlinks), outlinks[k].Raw == rawOutlinks[k]) // C19: the others are queued as outlinks
+//@   ensures [fresh-urls] freshslice(assets) && freshslice(outlinks) && (arrof(outlinks) != 0 ==> !samearray(assets, outlinks)) && forall(j, 0, len(assets), assets[j] != nil && fresh(assets[j])) && forall(j, 0, len(outlinks), outlinks[j] != nil && fresh(outlinks[j])) // the extractor builds new URL objects in new lists
+
+// ---------------------------------------------------------------------------------------
+// m3u8.go: against the playlist object delivered by grafov/m3u8 (the decoder itself is not
+// specified: completeness of the decoders is out of scope, DESIGN.md C19 "Undecided").
+// The three collection loops are specified by their invariants (at loop exit: every non-nil
+// segment / variant / alternative with a non-empty URI is in rawAssets) and the conversion
+// loop by [convert]. The end-to-end `ensures` (every segment URI is the Raw of an asset)
+// cannot be written: mediapl / masterpl are assigned in one switch branch only and govc
+// rejects an `ensures` naming a local that is not allocated on every return path
+// ("unknown identifier mediapl"); the spec language has no type assertion on `playlist`.
+//@ pred urlHas(l []*models.URL, s string) = exists(j, 0, len(l), l[j] != nil && l[j].Raw == s)
+//@ pred altsIn(l []string, v *m3u8.Variant, n int) = forall(k, 0, n, v.Alternatives[k] != nil && v.Alternatives[k].URI != "" ==> inList(l, v.Alternatives[k].URI))
+//@ pred altsInURLs(l []*models.URL, v *m3u8.Variant) = forall(k, 0, len(v.Alternatives), v.Alternatives[k] != nil && v.Alternatives[k].URI != "" ==> urlHas(l, v.Alternatives[k].URI))
+
+//@ func M3U8
+//@   property C19
+//@   checks idx
+//@   modifies models.URL::*!Hops!Redirects
+//@   loop range invariant [segments] -1 <= rangeindex && freshslice(rawAssets) && forall(i, 0, rangeindex+1, mediapl.Segments[i] != nil && mediapl.Segments[i].URI != "" ==> inList(rawAssets, mediapl.Segments[i].URI))
+//@   loop range#2 let vi = rangeindex
+//@   loop range#2 invariant [variants] -1 <= rangeindex && freshslice(rawAssets) && forall(i, 0, rangeindex+1, masterpl.Variants[i] != nil ==> (masterpl.Variants[i].URI != "" ==> inList(rawAssets, masterpl.Variants[i].URI)) && altsIn(rawAssets, masterpl.Variants[i], len(masterpl.Variants[i].Alternatives)))
+//@   loop range#3 invariant [alternatives] -1 <= rangeindex && freshslice(rawAssets) && variant != nil && variant == masterpl.Variants[vi+1] && 0 <= vi+1 && vi+1 < len(masterpl.Variants) && (variant.URI != "" ==> inList(rawAssets, variant.URI)) && altsIn(rawAssets, variant, rangeindex+1) && forall(i, 0, vi+1, masterpl.Variants[i] != nil ==> (masterpl.Variants[i].URI != "" ==> inList(rawAssets, masterpl.Variants[i].URI)) && altsIn(rawAssets, masterpl.Variants[i], len(masterpl.Variants[i].Alternatives)))
+//@   loop range#4 invariant [convert] -1 <= rangeindex && rangeindex < len(rawAssets) && freshslice(assets) && len(assets) == rangeindex + 1 && forall(k, 0, rangeindex+1, allocated(assets[k]) && assets[k].Raw == rawAssets[k])
+//@   ensures [convert] err == nil ==> len(assets) == len(rawAssets) && forall(k, 0, len(rawAssets), assets[k] != nil && assets[k].Raw == rawAssets[k]) // C19: every collected URI becomes an asset
+
+// ---------------------------------------------------------------------------------------
+// xml.go: XML (also used for RSS and sitemaps). What is stated is (1) the asset/outlink split
+// of the collected raw URLs in the last loop and (2) the error path. The token loop itself is
+// not specified against the token stream: the contract language has no type assertion, so
+// "the attribute values / character data of token n" cannot be written (see report).
+//@ func XML
+//@   property C19
+//@   checks idx
+//@   modifies models.URL::*!Hops!Redirects
+//@   loop for invariant [nothing-yet] len(assets) == 0 && len(outlinks) == 0 && freshslice(rawURLs)
+//@   loop range invariant [bounds] -1 <= rangeindex && len(assets) == 0 && len(outlinks) == 0 && freshslice(rawURLs)
+//@   loop range#2 invariant [frame] -1 <= rangeindex && rangeindex < len(rawURLs) && freshslice(assets) && freshslice(outlinks) && (arrof(assets) != 0 ==> !samearray(assets, outlinks))
+//@   loop range#2 invariant [count] len(assets) + len(outlinks) == rangeindex + 1
+//@   loop range#2 invariant [alloc] forall(j, 0, len(assets), allocated(assets[j]) && fresh(assets[j])) && forall(j, 0, len(outlinks), allocated(outlinks[j]) && fresh(outlinks[j]))
+//@   loop range#2 invariant [cover] forall(i, 0, rangeindex+1, urlHas(assets, rawURLs[i]) || urlHas(outlinks, rawURLs[i]))
+//@   loop range#2 invariant [assets-ext] forall(j, 0, len(assets), extOK(assets[j].Raw))
+//@   ensures [error] err != nil ==> len(assets) == 0 && len(outlinks) == 0
+//@   ensures [assets-ext] err == nil ==> forall(j, 0, len(assets), assets[j] != nil && extOK(assets[j].Raw)) // C19: URLs whose last path segment has a file extension are fetched as assets
+//@   ensures [outlinks] err == nil ==> forall(j, 0, len(outlinks), outlinks[j] != nil)
+//@   ensures [fresh-urls] freshslice(assets) && freshslice(outlinks) && (arrof(outlinks) != 0 ==> !samearray(assets, outlinks)) && forall(j, 0, len(assets), assets[j] == nil || fresh(assets[j])) && forall(j, 0, len(outlinks), outlinks[j] == nil || fresh(outlinks[j])) // the extractor builds new URL objects in new lists
